@@ -64,10 +64,14 @@ type Chain struct {
 	tc   *xibctesting.TestChain
 	name string
 
-	N common.Address // native ERC-20 (minted to the sender, sent out)
-	W common.Address // bound token: bound to N of every peer (and to fakeTssTok from tss-idx)
-	B common.Address // bound token: bound to the base denomination (token 0) of every peer
-	U common.Address // native ERC-20 WITHOUT any trace on the other chains (destination execution fails)
+	N   common.Address // native ERC-20 (minted to the sender, sent out)
+	W   common.Address // bound token: bound to N of every peer (and to fakeTssTok from tss-idx)
+	B   common.Address // bound token: bound to the base denomination (token 0) of every peer
+	U   common.Address // native ERC-20 WITHOUT any trace on the other chains (destination execution fails)
+	eth *ethWorld      // the world behind the Ethereum light client eth-<idx> (ops recv_eth / ack_eth), nil if not set up
+	bsc *ethWorld      // same for the BSC light client bsc-<idx>
+
+	M common.Address // multicall contract of the sender (op send_multi): several crossChainCalls in ONE transaction
 	A common.Address // token of the agent route 0 -> 1 -> 2: native on chain 0, bound to it on 1, bound to that on 2
 
 	dirty       bool  // something was delivered / written in the open block
@@ -292,15 +296,65 @@ func (e *Env) erc20Call(c *Chain, from common.Address, token common.Address, met
 	}
 }
 
+// multicallInitCode: a hand-assembled forwarding contract (no Solidity compiler on this image).  Init code (12 bytes,
+// copies the runtime) + runtime:
+//
+//	CALLDATASIZE 0 0 CALLDATACOPY ; ptr=0
+//	loop: if !(CALLDATASIZE > ptr) STOP
+//	      ok = CALL(GAS, mload(ptr), mload(ptr+32), ptr+96, mload(ptr+64), 0, 0)
+//	      if !ok { revert(returndata) }
+//	      ptr += 96 + mload(ptr+64) ; goto loop
+//
+// i.e. the call data is a sequence of records [target(32) | value(32) | len(32) | data(len)], each forwarded as a
+// CALL from the contract; the first failing call reverts the transaction.
+const multicallInitCode = "604380600c6000396000f300" +
+	"36600060003760005b8036111560365760006000826040015183606001846020015185515af1156038578060400151016060016008565b005b3d600060003e3d6000fd"
+
+func mcRecord(target common.Address, value *big.Int, data []byte) []byte {
+	out := common.LeftPadBytes(target.Bytes(), 32)
+	out = append(out, common.LeftPadBytes(value.Bytes(), 32)...)
+	out = append(out, common.LeftPadBytes(big.NewInt(int64(len(data))).Bytes(), 32)...)
+	return append(out, data...)
+}
+
+// deployMulticall deploys the forwarding contract from the sender's account; if the chain has the native ERC-20 N the
+// contract receives a balance of it and approves the endpoint (through a forwarded call), so that ERC-20 legs work.
+func (e *Env) deployMulticall(c *Chain) {
+	ctx := c.ctx()
+	code := common.FromHex(multicallInitCode)
+	nonce := c.tc.App.EvmKeeper.GetNonce(ctx, c.tc.SenderAddress)
+	c.M = crypto.CreateAddress(c.tc.SenderAddress, nonce)
+	res, err := c.tc.App.AggregateKeeper.CallEVMWithData(ctx, c.tc.SenderAddress, nil, code)
+	must(err)
+	if res.Failed() {
+		panic("deploy multicall: " + res.VmError)
+	}
+	if c.N != zeroAddr {
+		e.erc20Call(c, endpAddr, c.N, "mint", c.M, big.NewInt(1000000000))
+		appr, err := erc20ABI.Pack("approve", endpAddr, new(big.Int).Lsh(big.NewInt(1), 200))
+		must(err)
+		res, err := c.tc.App.AggregateKeeper.CallEVMWithData(ctx, c.tc.SenderAddress, &c.M, mcRecord(c.N, big.NewInt(0), appr))
+		must(err)
+		if res.Failed() {
+			panic("multicall approve: " + res.VmError)
+		}
+	}
+}
+
 type needs struct {
-	erc20, base, notrace, tssTransfer, agent bool
+	erc20, base, notrace, tssTransfer, agent, multi, eth bool
 }
 
 func scanNeeds(s *Spec) needs {
 	var n needs
 	for _, op := range s.Ops {
 		switch op.K {
+		case "recv_eth", "ack_eth":
+			n.eth = true
 		case "send":
+			if op.Dst == -3 || op.Dst == -4 {
+				n.eth = true
+			}
 			switch op.Variant {
 			case "base":
 				n.base = true
@@ -311,6 +365,16 @@ func scanNeeds(s *Spec) needs {
 				n.erc20 = true
 			default:
 				n.erc20 = true
+			}
+		case "send_multi":
+			n.multi = true
+			for _, l := range op.Legs {
+				switch l.Variant {
+				case "erc20":
+					n.erc20 = true
+				default:
+					n.base = true
+				}
 			}
 		case "recv_tss":
 			if op.Variant == "transfer" {
@@ -371,7 +435,14 @@ func newEnv(spec *Spec) *Env {
 			}
 		}
 		s0 := e.accs[0].String()
-		e.register(c, s0, append(append([]string{}, peers...), tssName), []string{s0, s0, s0})
+		if nd.eth {
+			// the Ethereum-secured counterparty eth-<idx>: relayer 0 relays for it too
+			e.setupEth(c, false)
+			e.setupEth(c, true)
+			e.register(c, s0, append(append([]string{}, peers...), tssName, ethName(c.idx), bscName(c.idx)), []string{s0, s0, s0, s0, s0})
+		} else {
+			e.register(c, s0, append(append([]string{}, peers...), tssName), []string{s0, s0, s0})
+		}
 		// R2: its own address on the counterparties; chain 1 registers it in UPPER case (a valid
 		// bech32 spelling) so that strings.EqualFold matters.
 		s1 := e.accs[1].String()
@@ -399,6 +470,11 @@ func newEnv(spec *Spec) *Env {
 			c.U = e.deployERC20(c)
 			e.erc20Call(c, endpAddr, c.U, "mint", c.tc.SenderAddress, big.NewInt(1000000000))
 			e.erc20Call(c, c.tc.SenderAddress, c.U, "approve", endpAddr, big1)
+		}
+	}
+	if nd.multi {
+		for _, c := range e.chains {
+			e.deployMulticall(c)
 		}
 	}
 	if nd.agent {
@@ -433,6 +509,11 @@ func newEnv(spec *Spec) *Env {
 	}
 	for i := range e.chains {
 		e.dstNames = append(e.dstNames, fmt.Sprintf("tss-%d", i))
+	}
+	if nd.eth {
+		for i := range e.chains {
+			e.dstNames = append(e.dstNames, ethName(i), bscName(i))
+		}
 	}
 	e.dstNames = append(e.dstNames, unknownChain)
 	for _, op := range spec.Ops {
